@@ -51,8 +51,13 @@ def check_bulk(ctx, rule, kinds=('prv', 'pub')):
                     expected = e2.expr(expr, fr)
 
                     def obs(ev_, v):
-                        return _map_leaves(v, lambda x: _observe(ev_, x) if T.tag(x) in ('list', 'tuple') else x) if T.tag(v) == 'phi' \
-                            else (_observe(ev_, v) if T.tag(v) in ('list', 'tuple') else v)
+                        # which exception a refusal raises (and which of two refusing elements is met first) is not compared:
+                        # refusing paths are refusing paths
+                        def leaf(x):
+                            if T.tag(x) in ('list', 'tuple'):
+                                return _observe(ev_, x)
+                            return T.raise_('refused') if T.tag(x) == 'raise' else x
+                        return _map_leaves(v, leaf) if T.tag(v) == 'phi' else leaf(v)
                     same_term(ob, obs(ev, found), obs(e2, expected),
                               'generate_children((%d, %d)) on a %s node is [ckd(i) for i in range(%d, %d)] - same children, same refusals'
                               % (lo, lo + 2, 'private' if kind == 'prv' else 'public', lo, lo + 2), fgen.where)
@@ -107,17 +112,18 @@ def run(ctx):
                 pf = T.obj_fields(node)
                 for lo in (0, H - 1, H):
                     v, f = ev.call_function('bip32.PubKeyNode.generate_children', [node], {'interval': T.tup([T.const(lo), T.const(lo + 2)])})
-                    lists = [x for x in distinct_normal_leaves(v)]
-                    ob.require(len(lists) >= 1 and all(T.tag(x) in ('list', 'tuple') and len(x[1]) == 2 for x in lists),
+                    lists = normal_leaves(v)
+                    ob.require(len(lists) >= 1 and all(T.tag(x) in ('list', 'tuple') and len(x[1]) == 2 for _, x in lists),
                                'generate_children((%d, %d)) returns the two children' % (lo, lo + 2), fgen.where,
                                found=T.show(v, maxdepth=2))
-                    for x in lists:
+                    for cs_, x in lists:
                         if T.tag(x) not in ('list', 'tuple'):
                             continue
                         for j, child in enumerate(x[1]):
                             idx = T.const(lo + j)
                             ekey, echain = SP.ckd_priv(k, c, idx)
-                            same_node(ob, ev, child, PRV, 'generate_children: child %d' % (lo + j), fgen.where, facts=f, prv=ekey,
+                            same_node(ob, ev, child, PRV, 'generate_children: child %d' % (lo + j), fgen.where,
+                                      facts=Facts(known_at(f, cs_)), prv=ekey,
                                       chain=echain, depth=T.add(pf['depth'], T.const(1)), index=idx, testnet=pf['testnet'])
             with ctx.obligation('C01.BRANCH', 'PrvKeyNode.ckd', cfg, fckd.where) as ob:
                 for lo, hi, hardened in _cells_index():
